@@ -512,6 +512,14 @@ def post(prop, tier, seed, plan_, results, cases_file, workdir, stats):
                     m = "?"
                 msgs[m] = msgs.get(m, 0) + 1
         res["coverage"]["diagnostics_hit"] = msgs
+        # where the diagnostics point: compared leaf ranges (model's `diagLocus` vs the span of the real error)
+        loci = {"compared": 0, "equal": 0, "call": 0, "attr": 0, "item": 0}
+        for d in results.values():
+            if d.get("model") == "diag" and d.get("real") == "diag" and d.get("mloc", "-") != "-" and d.get("rloc", "-") != "-":
+                loci["compared"] += 1
+                loci["equal"] += 1 if d["mloc"] == d["rloc"] else 0
+                loci[d["mloc"].split(":")[0]] = loci.get(d["mloc"].split(":")[0], 0) + 1
+        res["coverage"]["diagnostic_locations"] = loci
     if prop == "C17":
         real = load_real(cases_file)
         checked = 0
